@@ -54,6 +54,13 @@ Proof. exact lcs_valid_and_minimal. Qed.
 Theorem C27_middle_snake_is_optimal : mid_optimal middle.
 Proof. exact middle_optimal. Qed.
 
+(* middle is total: on inputs of length >= 2 with a large enough buffer it always returns a snake, i.e. its
+   log.Fatal("no snake") branch is unreachable and the model's fuel suffices. *)
+Theorem C27_middle_always_finds_a_snake :
+  forall a b buf, 2 <= zlen a -> 2 <= zlen b -> 2 * (zlen a + zlen b + 2) <= zlen buf ->
+  exists ai bi s buf', middle a b buf = MidFound ai bi s buf'.
+Proof. exact middle_total. Qed.
+
 (* ... and minimality holds for trace/lcs with ANY optimally splitting middle-snake oracle. *)
 Theorem C27_lcs_minimal_for_any_optimal_middle :
   forall mid a b chunks, mid_optimal mid -> lcs_gen mid a b = LcsOk chunks ->
@@ -75,9 +82,10 @@ Theorem C27_L_is_longest_common_subsequence :
               (forall s, Sub s a -> Sub s b -> zlen s <= L a b).
 Proof. exact L_is_lcs. Qed.
 
-(* Still NOT proved: totality, i.e. that lcs never returns LcsFatal / LcsFuel (middle always finds a snake
-   within its fuel whose coordinates pass trace's bounds and no-progress checks).  The check compares the
-   model's result (including these outcomes) with the implementation on every generated pair. *)
+(* Still NOT proved: totality of trace/lcs, i.e. that lcs never returns LcsFatal / LcsFuel.  middle always
+   finds a snake (above); missing is that its coordinates always pass trace's slice-bounds and
+   "no snake" (no-progress) checks, and trace's fuel arithmetic.  The check compares the model's result
+   (including these outcomes) with the implementation on every generated pair. *)
 
 (* The rendered diff is empty exactly when the texts are equal. *)
 Theorem C27_render_empty_iff_equal : forall a b, line_diff a b = None <-> a = b.
@@ -105,6 +113,7 @@ Print Assumptions C27_render_empty_iff_equal.
 Print Assumptions C27_script_minimal.
 Print Assumptions C27_lcs_script_valid_and_minimal.
 Print Assumptions C27_middle_snake_is_optimal.
+Print Assumptions C27_middle_always_finds_a_snake.
 Print Assumptions C27_lcs_minimal_for_any_optimal_middle.
 Print Assumptions C27_forward_furthest_reaching.
 Print Assumptions C27_L_is_longest_common_subsequence.
